@@ -92,7 +92,11 @@ F_IterClose(s) == IF s.iter = "abs" THEN [s EXCEPT !.relFresh = FALSE, !.iter = 
 AbsMutOps == {"add_absolute_message", "add_absolute_cap", "cutoff", "quantise", "quantise_note_lengths"}
 RelMutOps == {"add_relative_message", "concatenate", "normalise", "pad", "set_channel", "scale", "transpose"}
 (* composites: several steps of the protocol in one public call *)
-CompositeOps == {"merge", "quantise_and_normalise", "scale_requantise", "transpose_wrap"}
+(* late_iter_*: a generator obtained before, and advanced after, a mutator of the OTHER view (its body only runs on the
+   first `next`, so this is the mutator followed by a whole iteration); scale_down_self_meta: scale by 1/2 with the
+   sequence itself as the source of the time signatures *)
+CompositeOps == {"merge", "quantise_and_normalise", "scale_requantise", "transpose_wrap", "late_iter_abs", "late_iter_rel",
+                 "scale_down_self_meta"}
 AbsReadOps == {"read_abs", "equals", "get_message_pairings", "get_interleaved_message_pairings",
                "get_message_times_of_type", "get_sequence_channel", "get_sequence_duration",
                "is_channel_consistent"}
@@ -155,6 +159,9 @@ Apply(s, op, c) ==
       [] op \in RelMutOps -> F_RelMut(s, c)
       [] op = "merge" -> F_RelMut(F_AbsMut(s, c), c)                          \* merge into abs; normalise
       [] op = "quantise_and_normalise" -> F_RelMut(F_AbsMut(F_AbsMut(s, c), c), c)
+      [] op = "late_iter_abs" -> F_Iter(F_RelMut(s, c), "iter_abs", c)
+      [] op = "late_iter_rel" -> F_Iter(F_AbsMut(s, c), "iter_rel", c)
+      [] op = "scale_down_self_meta" -> F_RelMut(F_ReadAbs(F_RelMut(s, c)), c)
       [] op = "scale_requantise" -> F_RelMut(F_AbsMut(F_AbsMut(F_RelMut(s, c), c), c), c)
       [] op = "transpose_wrap" -> F_AbsMut(F_RelMut(F_RelMut(s, c), c), c)    \* transpose; normalise; note lengths
       [] op \in AbsReadOps -> F_ReadAbs(s)
